@@ -27,7 +27,21 @@
 #include <cppcms/crypto.h>
 #include <cppcms/base64.h>
 #include <cppcms/cppcms_error.h>
+#include <cppcms/service.h>
+#include <cppcms/application.h>
+#include <cppcms/applications_pool.h>
+#include <cppcms/http_request.h>
+#include <cppcms/http_response.h>
+#include <cppcms/http_context.h>
+#include <cppcms/mount_point.h>
 #include <booster/backtrace.h>
+#include <thread>
+#include <atomic>
+#include <sys/socket.h>
+#include <sys/un.h>
+#include <sys/stat.h>
+#include <poll.h>
+#include <signal.h>
 // session_cookies::save() leaves the new cookie in session_interface::temp_cookie_ (private); the
 // harness reads it there (layout is unchanged by this define; all std headers are included above)
 #define private public
@@ -177,7 +191,7 @@ struct prims {
 };
 
 // ---------------- encryptor construction ----------------
-static std::unique_ptr<cppcms::sessions::encryptor> make_enc(std::string const &cfg)
+static std::unique_ptr<cppcms::sessions::encryptor_factory> make_factory(std::string const &cfg)
 {
 	using namespace cppcms::sessions::impl;
 	std::vector<std::string> p=split_by(cfg,'/');
@@ -195,7 +209,11 @@ static std::unique_ptr<cppcms::sessions::encryptor> make_enc(std::string const &
 		f.reset(new aes_factory(p[1],cppcms::crypto::key(k.data(),k.size())));
 	}
 	else throw std::runtime_error("bad cfg token");
-	return f->get();
+	return f;
+}
+static std::unique_ptr<cppcms::sessions::encryptor> make_enc(std::string const &cfg)
+{
+	return make_factory(cfg)->get();
 }
 
 static cppcms::session_pool *g_pool = 0; // only gives session_interface an object to live on
@@ -308,19 +326,24 @@ static void scenario(std::vector<std::string> const &t,std::ostream &out)
 	std::string cfgA=t.at(1),cfgB=t.at(2);
 	g_now = atoll(t.at(3).substr(4).c_str());
 	prims pr;
-	std::unique_ptr<cppcms::sessions::session_cookies> scA,scB;
-	cppcms::sessions::encryptor *encA=0;
+	std::unique_ptr<cppcms::sessions::session_cookies> scB;
+	// the encryptor objects of side A: all made by ONE factory (as session_pool does, one per request);
+	// `new` makes another one and switches to it, `obj:<k>` switches back to the k-th
+	std::unique_ptr<cppcms::sessions::encryptor_factory> facA;
+	std::vector<std::unique_ptr<cppcms::sessions::session_cookies> > objs;
+	std::vector<cppcms::sessions::encryptor *> encs;
+	size_t cur=0;
 	try {
-		std::unique_ptr<cppcms::sessions::encryptor> e=make_enc(cfgA);
-		encA=e.get();
-		scA.reset(new cppcms::sessions::session_cookies(std::move(e)));
+		facA=make_factory(cfgA);
+		std::unique_ptr<cppcms::sessions::encryptor> e=facA->get();
+		encs.push_back(e.get());
+		objs.push_back(std::unique_ptr<cppcms::sessions::session_cookies>(new cppcms::sessions::session_cookies(std::move(e))));
 	}
 	catch(std::exception const &e) { out << "cfgerrA"; return; }
 	if(cfgB!="=") {
 		try { scB.reset(new cppcms::sessions::session_cookies(make_enc(cfgB))); }
 		catch(std::exception const &e) { pr.for_cfg(cfgA); out << "cfgerrB" << pr.out.str(); return; }
 	}
-	cppcms::sessions::session_cookies &loader = cfgB=="=" ? *scA : *scB;
 	std::string const &cfgL = cfgB=="=" ? cfgA : cfgB;
 	g_cfgL = cfgL;
 	pr.for_cfg(cfgA); pr.for_cfg(cfgL);
@@ -329,6 +352,19 @@ static void scenario(std::vector<std::string> const &t,std::ostream &out)
 	for(size_t i=4;i<t.size();i++) {
 		std::string const &tok=t[i];
 		if(tok.compare(0,4,"now=")==0) { g_now=atoll(tok.substr(4).c_str()); continue; }
+		if(tok=="new") {
+			std::unique_ptr<cppcms::sessions::encryptor> e=facA->get();
+			encs.push_back(e.get());
+			objs.push_back(std::unique_ptr<cppcms::sessions::session_cookies>(new cppcms::sessions::session_cookies(std::move(e))));
+			cur=objs.size()-1;
+			continue;
+		}
+		if(tok.compare(0,4,"obj:")==0) {
+			size_t k=atoi(tok.substr(4).c_str());
+			if(k>=objs.size()) throw std::runtime_error("bad object index");
+			cur=k;
+			continue;
+		}
 		if(tok.compare(0,2,"S:")==0 || tok.compare(0,2,"X:")==0) {
 			std::vector<std::string> q=split_by(tok,':');
 			std::string cookie;
@@ -336,11 +372,11 @@ static void scenario(std::vector<std::string> const &t,std::ostream &out)
 				if(tok[0]=='S') {
 					adapter ad;
 					cppcms::session_interface si(*g_pool,ad);
-					scA->save(si,unhex(q.at(1)),(time_t)atoll(q.at(2).c_str()),true,false);
+					objs[cur]->save(si,unhex(q.at(1)),(time_t)atoll(q.at(2).c_str()),true,false);
 					cookie=si.temp_cookie_;
 				}
 				else {
-					cookie="C"+cppcms::b64url::encode(encA->encrypt(unhex(q.at(1))));
+					cookie="C"+cppcms::b64url::encode(encs[cur]->encrypt(unhex(q.at(1))));
 				}
 			}
 			catch(std::exception const &e) { out << " " << tok[0] << "=EXC"; cookies.push_back(""); ciphers.push_back(""); continue; }
@@ -357,7 +393,48 @@ static void scenario(std::vector<std::string> const &t,std::ostream &out)
 		try { cand=make_candidate(tok,cookies,ciphers); }
 		catch(std::exception const &e) { out << " L=BADSPEC"; continue; }
 		pr.for_cookie(cfgL,cand);
-		out << " L=" << hex(cand) << ":" << verdict_l1(loader,cand);
+		out << " L=" << hex(cand) << ":" << verdict_l1(cfgB=="=" ? *objs[cur] : *scB,cand);
+	}
+	out << pr.out.str();
+}
+
+// ---------------- cbc scenario: the cppcms::crypto::cbc object itself (src/aes.cpp) ----------------
+// cbc <name> <keyhex> ops...   I:<ivhex> set_iv | N set_nonce_iv | E:<hex> encrypt | D:<hex> decrypt
+// (lengths are multiples of the block size).  The raw block values the model needs are computed with a SEPARATE
+// object, one block at a time, after set_iv(zero).
+static void cbc_scenario(std::vector<std::string> const &t,std::ostream &out)
+{
+	std::string name=t.at(1),key=unhex(t.at(2));
+	std::unique_ptr<cppcms::crypto::cbc> c=cppcms::crypto::cbc::create(name);
+	if(!c.get()) { out << "nocbc"; return; }
+	try { c->set_key(cppcms::crypto::key(key.data(),key.size())); }
+	catch(std::exception const &e) { out << "keyerr"; return; }
+	prims pr;
+	out << "ok";
+	for(size_t i=3;i<t.size();i++) {
+		std::string const &tok=t[i];
+		{
+			if(tok=="N") { c->set_nonce_iv(); out << " N=ok"; }
+			else if(tok.compare(0,2,"I:")==0) {
+				std::string iv=unhex(tok.substr(2));
+				try { c->set_iv(iv.data(),iv.size()); out << " I=ok"; }
+				catch(std::exception const &e) { out << " I=EXC"; }
+			}
+			else if(tok.compare(0,2,"E:")==0 || tok.compare(0,2,"D:")==0) {
+				std::string in=unhex(tok.substr(2));
+				if(in.size()%16!=0) throw std::runtime_error("cbc scenario: ragged length");
+				std::string res(in.size(),'\0');
+				char dummy_in=0,dummy_out=0;
+				try {
+					if(tok[0]=='E') c->encrypt(in.empty() ? &dummy_in : in.data(),res.empty() ? &dummy_out : &res[0],in.size());
+					else c->decrypt(in.empty() ? &dummy_in : in.data(),res.empty() ? &dummy_out : &res[0],in.size());
+					out << " " << tok[0] << "=" << hex(res);
+					pr.blocks(key,tok[0]=='E' ? res : in);
+				}
+				catch(std::exception const &e) { out << " " << tok[0] << "=EXC"; }
+			}
+			else throw std::runtime_error("bad cbc op");
+		}
 	}
 	out << pr.out.str();
 }
@@ -471,6 +548,38 @@ static void pool_scenario(std::vector<std::string> const &t,std::ostream &out)
 	for(;i<t.size();i++) {
 		std::string const &tok=t[i];
 		if(tok.compare(0,4,"now=")==0) { g_now=atoll(tok.substr(4).c_str()); continue; }
+		if(tok.compare(0,2,"Q~")==0) {
+			// a whole request on the pool: a new session_interface (= a new encryptor object from the pool's factory),
+			// load() of the presented cookie, set() of some values, save() -- decrypt then encrypt on ONE encryptor
+			std::vector<std::string> q=split_by(tok,'~');
+			std::string cand;
+			try { if(q.size()!=3) throw std::runtime_error("bad Q"); cand=make_candidate(q[1],cookies,ciphers); }
+			catch(std::exception const &e) { out << " Q=BADSPEC"; cookies.push_back(""); ciphers.push_back(""); continue; }
+			if(prim!="-") pr.for_cookie(prim,cand);
+			out << " Q=" << hex(cand) << ":";
+			std::string issued2;
+			try {
+				adapter ad; ad.value=cand;
+				cppcms::session_interface si(*pool,ad);
+				bool l=si.load();
+				std::string loaded=kvdump(si);
+				std::vector<std::string> kvs=split_by(q[2],';');
+				for(size_t j=0;j<kvs.size();j++) {
+					std::vector<std::string> kv=split_by(kvs[j],':');
+					if(kv.size()==2) si.set(unhex(kv[0]),unhex(kv[1]));
+				}
+				int sets_before=ad.sets;
+				si.save();
+				bool has_issued = ad.sets>sets_before && !ad.last_value.empty();
+				if(has_issued) issued2=ad.last_value;
+				out << (l?1:0) << "," << loaded << "," << (ad.cleared?1:0) << "," << (has_issued ? hex(issued2) : std::string("-"));
+			}
+			catch(std::exception const &e) { out << "EXC"; }
+			cookies.push_back(issued2);
+			{ std::string ci; if(!issued2.empty()) cppcms::b64url::decode(issued2.substr(1),ci); ciphers.push_back(ci); }
+			if(prim!="-" && !issued2.empty()) pr.for_cookie(prim,issued2);
+			continue;
+		}
 		std::string cand;
 		try { cand=make_candidate(tok,cookies,ciphers); }
 		catch(std::exception const &e) { out << " L=BADSPEC"; continue; }
@@ -488,8 +597,224 @@ static void pool_scenario(std::vector<std::string> const &t,std::ostream &out)
 	out << pr.out.str();
 }
 
+// ---------------- http scenario: the same requests through a real cppcms::service (SCGI on a unix socket) ----------------
+// The session is loaded by the framework before application::main (http::context / session_interface(http::context&),
+// cookie taken from the request's Cookie header) and saved when the response headers are written; the answer is read
+// from the Set-Cookie lines on the wire.  Same line format and same answers as the pool scenario (only Q requests).
+static std::string kvdump(cppcms::session_interface &si);
+struct sess_app : public cppcms::application {
+	sess_app(cppcms::service &s) : cppcms::application(s) {}
+	virtual void main(std::string)
+	{
+		std::ostringstream o;
+		bool l=!session().data_.empty();
+		o << "l=" << (l?1:0) << ";kv=" << kvdump(session()) << ";";
+		std::vector<std::string> kvs=split_by(request().get("set"),';');
+		for(size_t j=0;j<kvs.size();j++) {
+			std::vector<std::string> kv=split_by(kvs[j],':');
+			if(kv.size()==2) session().set(unhex(kv[0]),unhex(kv[1]));
+		}
+		response().out() << o.str();     // headers are written here: the framework saves the session first
+	}
+};
+
+static bool cookie_text_safe(std::string const &c)
+{
+	for(size_t i=0;i<c.size();i++) {
+		char ch=c[i];
+		if(!((ch>='A'&&ch<='Z')||(ch>='a'&&ch<='z')||(ch>='0'&&ch<='9')||ch=='-'||ch=='_')) return false;
+	}
+	return true;
+}
+
+static bool scgi_request(std::string const &sock,std::string const &cookie,std::string const &sets,std::string &reply)
+{
+	int fd=socket(AF_UNIX,SOCK_STREAM,0);
+	if(fd<0) return false;
+	sockaddr_un a; memset(&a,0,sizeof(a)); a.sun_family=AF_UNIX;
+	strncpy(a.sun_path,sock.c_str(),sizeof(a.sun_path)-1);
+	{	// the socket file appears at bind(); until listen() a connect is refused: retry for a while
+		int tries=0;
+		while(connect(fd,(sockaddr *)&a,sizeof(a))!=0) {
+			if(tries++>5000) { close(fd); return false; }
+			usleep(2000);
+		}
+	}
+	std::string h;
+	struct add { static void kv(std::string &h,char const *k,std::string const &v) { h.append(k); h.push_back('\0'); h.append(v); h.push_back('\0'); } };
+	add::kv(h,"CONTENT_LENGTH","0");
+	add::kv(h,"SCGI","1");
+	add::kv(h,"REQUEST_METHOD","GET");
+	add::kv(h,"SCRIPT_NAME","/s");
+	add::kv(h,"PATH_INFO","");
+	add::kv(h,"QUERY_STRING","set="+sets);
+	add::kv(h,"SERVER_NAME","localhost");
+	add::kv(h,"SERVER_PORT","80");
+	add::kv(h,"SERVER_PROTOCOL","HTTP/1.0");
+	add::kv(h,"REMOTE_ADDR","127.0.0.1");
+	if(!cookie.empty()) add::kv(h,"HTTP_COOKIE","other=1; cppcms_session="+cookie+"; z=2");
+	std::ostringstream msg; msg << h.size() << ":" << h << ",";
+	std::string m=msg.str();
+	size_t off=0;
+	while(off<m.size()) { ssize_t n=send(fd,m.data()+off,m.size()-off,MSG_NOSIGNAL); if(n<=0) { close(fd); return false; } off+=n; }
+	reply.clear();
+	for(;;) {
+		pollfd pf; pf.fd=fd; pf.events=POLLIN; pf.revents=0;
+		int r=poll(&pf,1,20000);
+		if(r<=0) { close(fd); return false; }
+		char buf[4096]; ssize_t n=recv(fd,buf,sizeof(buf),0);
+		if(n<0) { close(fd); return false; }
+		if(n==0) break;
+		reply.append(buf,n);
+	}
+	close(fd);
+	return true;
+}
+
+// the values of all `Set-Cookie:cppcms_session=` header lines of a CGI style reply, in order
+static std::vector<std::string> session_set_cookies(std::string const &reply)
+{
+	std::vector<std::string> r;
+	size_t end=reply.find("\r\n\r\n");
+	std::string head=reply.substr(0,end==std::string::npos ? reply.size() : end+2);
+	size_t p=0;
+	for(;;) {
+		size_t e=head.find("\r\n",p);
+		if(e==std::string::npos) break;
+		std::string line=head.substr(p,e-p);
+		p=e+2;
+		if(line.size()<11) continue;
+		std::string low=line.substr(0,11);
+		for(size_t i=0;i<low.size();i++) if(low[i]>='A'&&low[i]<='Z') low[i]=low[i]-'A'+'a';
+		if(low!="set-cookie:") continue;
+		std::string v=line.substr(11);
+		while(!v.empty() && v[0]==' ') v.erase(0,1);
+		if(v.compare(0,15,"cppcms_session=")!=0) continue;
+		v=v.substr(15);
+		size_t sc=v.find(';'); if(sc!=std::string::npos) v=v.substr(0,sc);
+		if(v.size()>=2 && v[0]=='"' && v[v.size()-1]=='"') v=v.substr(1,v.size()-2);
+		r.push_back(v);
+	}
+	return r;
+}
+
+static void http_scenario(std::vector<std::string> const &t,std::ostream &out)
+{
+	std::map<std::string,std::string> a;
+	size_t i=1;
+	for(;i<t.size();i++) {
+		size_t e=t[i].find('=');
+		if(e==std::string::npos) break;
+		std::string k=t[i].substr(0,e);
+		if(k=="now" && a.count("now")) break;
+		a[k]=t[i].substr(e+1);
+	}
+	g_now=atoll(a["now"].c_str());
+	char tmpl[]="/tmp/C05-http-XXXXXX";
+	if(!mkdtemp(tmpl)) { out << "httperr:mkdtemp"; return; }
+	std::string dir=tmpl,sock=dir+"/scgi.sock";
+	struct rmdir_ { std::string d,s; ~rmdir_() { unlink(s.c_str()); rmdir(d.c_str()); } } cleaner = { dir, sock };
+	cppcms::json::value cfg;
+	cfg["service"]["api"]="scgi";
+	cfg["service"]["socket"]=sock;
+	cfg["service"]["worker_threads"]=1;
+	cfg["http"]["script_names"][0]="/s";
+	cfg["logging"]["level"]="emergency";
+	cfg["session"]["location"]="client";
+	if(a.count("enc")) cfg["session"]["client"]["encryptor"]=unhex(a["enc"]);
+	if(a.count("mac")) cfg["session"]["client"]["hmac"]=unhex(a["mac"]);
+	if(a.count("cbc")) cfg["session"]["client"]["cbc"]=unhex(a["cbc"]);
+	if(a.count("key")) cfg["session"]["client"]["key"]=unhex(a["key"]);
+	if(a.count("hkey")) cfg["session"]["client"]["hmac_key"]=unhex(a["hkey"]);
+	if(a.count("ckey")) cfg["session"]["client"]["cbc_key"]=unhex(a["ckey"]);
+	cfg["session"]["timeout"]=atoi(a["timeout"].c_str());
+	cfg["session"]["expire"]=a.count("expire") ? a["expire"] : std::string("fixed");
+	std::string prim=a.count("prim") ? a["prim"] : std::string("-");
+	g_cfgL=prim;
+	prims pr;
+	if(prim!="-") pr.for_cfg(prim);
+	std::ostringstream body;
+	bool failed=false; std::string why;
+	try {
+		// service::shutdown() may only be called once run() reached its event loop (it writes to a socket pair that run()
+		// creates, and exits the process when that fails): the service is stopped only after it answered a request; if it
+		// never did, it is left alone (leaked) unless run() has already returned
+		struct running {
+			cppcms::service *srv; std::thread *th; std::atomic<bool> returned; bool answered; std::string error;
+			running() : srv(0), th(0), returned(false), answered(false) {}
+			~running()
+			{
+				if(!srv) return;
+				if(answered) { srv->shutdown(); th->join(); delete th; delete srv; }
+				else if(returned) { th->join(); delete th; delete srv; }
+				else th->detach();
+			}
+		} run;
+		run.srv=new cppcms::service(cfg);
+		cppcms::service &srv=*run.srv;
+		srv.applications_pool().mount(cppcms::create_pool<sess_app>(),cppcms::mount_point("/s"));
+		running *rp=&run;
+		run.th=new std::thread([rp]() { try { rp->srv->run(); } catch(std::exception const &e) { rp->error=e.what(); } rp->returned=true; });
+		{ // wait for the acceptor
+			struct stat st; int tries=0;
+			while(stat(sock.c_str(),&st)!=0 && !run.returned && tries++<15000) usleep(2000);
+			if(stat(sock.c_str(),&st)!=0 || run.returned) { failed=true; why="nosocket"; }
+		}
+		std::vector<std::string> cookies,ciphers;
+		bool first=true;
+		std::vector<std::string> reqs;
+		reqs.push_back("Q~raw:-~"+a["kv"]);       // the request that creates the session
+		for(;i<t.size();i++) reqs.push_back(t[i]);
+		for(size_t r=0;r<reqs.size() && !failed;r++) {
+			std::string const &tok=reqs[r];
+			if(tok.compare(0,4,"now=")==0) { g_now=atoll(tok.substr(4).c_str()); continue; }
+			std::vector<std::string> q=split_by(tok,'~');
+			std::string cand;
+			bool bad=false;
+			try { if(q.size()!=3 || q[0]!="Q") throw std::runtime_error("only Q"); cand=make_candidate(q[1],cookies,ciphers); }
+			catch(std::exception const &e) { bad=true; }
+			if(!bad && !cookie_text_safe(cand)) bad=true;
+			if(bad) { body << " Q=BADSPEC"; cookies.push_back(""); ciphers.push_back(""); continue; }
+			if(prim!="-") pr.for_cookie(prim,cand);
+			std::string reply;
+			if(!scgi_request(sock,cand,q[2],reply)) { failed=true; why="request"; break; }
+			run.answered=true;
+			size_t hb=reply.find("\r\n\r\n");
+			std::string rb= hb==std::string::npos ? std::string() : reply.substr(hb+4);
+			size_t pl=rb.find("l="),pk=rb.find(";kv=");
+			if(pl!=0 || pk==std::string::npos || rb.empty() || rb[rb.size()-1]!=';') {
+				// no page: the request died inside the framework (reported as an exception of the code under test)
+				if(first) { body << "useerr:other"; failed=false; goto done; }
+				body << " Q=" << hex(cand) << ":EXC"; cookies.push_back(""); ciphers.push_back(""); continue;
+			}
+			std::string l=rb.substr(2,1),kvd=rb.substr(pk+4,rb.size()-pk-5);
+			std::vector<std::string> sc=session_set_cookies(reply);
+			bool cleared=false; std::string issued2;
+			for(size_t k=0;k<sc.size();k++) { if(sc[k].empty()) cleared=true; else issued2=sc[k]; }
+			if(!sc.empty() && sc.back().empty()) issued2.clear();
+			if(first) {
+				body << "ok S=" << hex(issued2) << " load0=" << l << " sets=" << sc.size() << " age=-2";
+				first=false;
+			}
+			else body << " Q=" << hex(cand) << ":" << l << "," << kvd << "," << (cleared?1:0) << "," << (issued2.empty() ? std::string("-") : hex(issued2));
+			cookies.push_back(issued2);
+			{ std::string ci; if(!issued2.empty()) cppcms::b64url::decode(issued2.substr(1),ci); ciphers.push_back(ci); }
+			if(prim!="-" && !issued2.empty()) pr.for_cookie(prim,issued2);
+		}
+		done: ;
+	}
+	catch(std::exception const &e) {
+		std::string m=e.what(); size_t nl=m.find('\n'); if(nl!=std::string::npos) m=m.substr(0,nl);
+		out << "httperr:service " << hex(m.substr(0,80));
+		return;
+	}
+	if(failed) { out << "httperr:" << why; return; }
+	out << body.str() << pr.out.str();
+}
+
 int main()
 {
+	signal(SIGPIPE,SIG_IGN);
 	std::ios::sync_with_stdio(false);
 	{
 		cppcms::json::value s;
@@ -507,6 +832,37 @@ int main()
 			if(t.empty()) out << "BAD-CASE";
 			else if(t[0]=="scn") scenario(t,out);
 			else if(t[0]=="pool") pool_scenario(t,out);
+			else if(t[0]=="katseq" && t.size()>=3) {
+				// ONE crypto::hmac (or, with key "md", one message_digest) object used for several messages in a row: every readout
+				// must leave the object ready for the next message (aes_factory derives both keys from one hmac object this way)
+				out << "ok";
+				if(t[2]=="md") {
+					std::unique_ptr<cppcms::crypto::message_digest> md=cppcms::crypto::message_digest::create_by_name(t[1]);
+					if(!md.get()) { out.str("nomd"); }
+					else for(size_t i=3;i<t.size();i++) {
+						std::string m=unhex(t[i]);
+						size_t cut=m.size()/3;
+						md->append(m.data(),cut); md->append(m.data()+cut,m.size()-cut);
+						std::vector<char> tag(md->digest_size(),0);
+						md->readout(&tag[0]);
+						out << " T=" << hex(std::string(&tag[0],tag.size()));
+					}
+				}
+				else {
+					std::string k=unhex(t[2]);
+					cppcms::crypto::hmac h(t[1],cppcms::crypto::key(k.data(),k.size()));
+					for(size_t i=3;i<t.size();i++) {
+						std::string m=unhex(t[i]);
+						size_t cut=m.size()/2;
+						h.append(m.data(),cut); h.append(m.data()+cut,m.size()-cut);
+						std::vector<char> tag(h.digest_size(),0);
+						h.readout(&tag[0]);
+						out << " T=" << hex(std::string(&tag[0],tag.size()));
+					}
+				}
+			}
+			else if(t[0]=="cbc" && t.size()>=3) cbc_scenario(t,out);
+			else if(t[0]=="http") http_scenario(t,out);
 			else if(t[0]=="kat" && t.size()>=3) {
 				// known-answer lines: raw block decryptions and HMAC tags as the harness computes them for the model
 				prims pr;
